@@ -20,7 +20,7 @@ use vcommon::Args;
 // ---------------------------------------------------------------------------------------------
 // memory cases
 
-const CTORS: [&str; 12] = [
+const CTORS: [&str; 16] = [
     "from_slice",
     "from_vec-exact",
     "from_vec-excess",
@@ -33,7 +33,29 @@ const CTORS: [&str; 12] = [
     "From<&[u8]>",
     "From<Vec<u8>>",
     "FromIterator-unsized",
+    "FromIterator-exact-hint-too-small",
+    "FromIterator-exact-hint-too-large",
+    "FromIterator-lower-bound-too-large",
+    "FromIterator-upper-bound-zero",
 ];
+
+/// an iterator whose `size_hint` is not what it yields: `size_hint` is advisory ("a buggy iterator may
+/// yield less than the lower bound or more than the upper bound"), so the buffer must still hold
+/// exactly the bytes that were yielded
+struct Hinted<I> {
+    it: I,
+    lo: usize,
+    hi: Option<usize>,
+}
+impl<I: Iterator<Item = u8>> Iterator for Hinted<I> {
+    type Item = u8;
+    fn next(&mut self) -> Option<u8> {
+        self.it.next()
+    }
+    fn size_hint(&self) -> (usize, Option<usize>) {
+        (self.lo, self.hi)
+    }
+}
 
 fn pattern(len: usize) -> Vec<u8> {
     // contains 0x00 and 0xff, not periodic with a small period
@@ -76,7 +98,17 @@ fn construct(ctor: usize, src: &[u8]) -> Vec<SharedBytes> {
         }
         9 => vec![SharedBytes::from(src)],
         10 => vec![SharedBytes::from(src.to_vec())],
-        _ => vec![src.iter().copied().filter(|_| true).collect::<SharedBytes>()],
+        11 => vec![src.iter().copied().filter(|_| true).collect::<SharedBytes>()],
+        12 => {
+            let n = src.len() / 2;
+            vec![Hinted { it: src.iter().copied(), lo: n, hi: Some(n) }.collect::<SharedBytes>()]
+        }
+        13 => {
+            let n = src.len() + 3;
+            vec![Hinted { it: src.iter().copied(), lo: n, hi: Some(n) }.collect::<SharedBytes>()]
+        }
+        14 => vec![Hinted { it: src.iter().copied(), lo: src.len() + 5, hi: None }.collect::<SharedBytes>()],
+        _ => vec![Hinted { it: src.iter().copied(), lo: 0, hi: Some(0) }.collect::<SharedBytes>()],
     }
 }
 
